@@ -19,7 +19,15 @@ import (
 	"time"
 )
 
-const VerifRoot = "/verif"
+// VerifRoot is where evidence/, replays/ and known-findings.txt live
+// (overridable with KV_ROOT so that a scratch copy of the harness is
+// self-contained).
+var VerifRoot = func() string {
+	if r := os.Getenv("KV_ROOT"); r != "" {
+		return r
+	}
+	return "/verif"
+}()
 
 // Check is one property's machinery. Cases are a pure function of
 // (seed, tier, index); RunCase must be safe to call concurrently.
